@@ -106,6 +106,10 @@ def run(chk):
         "hand-written models coq/Model/Frontier.v and coq/Model/Search.v (+ the table-driven instantiation "
         "coq/Model/SearchRun.v of the C01 work item), tied by this correspondence run",
         "unit conversion tables coq/Gen/UnitTables.v regenerated from the Rust sources (property C09)",
+        "translator/tr_frontier.py + translator/rsparse.py + translator/rsmonad.py (VehicleRestriction, VehicleParameters, "
+        "VehicleRestriction::valid and valid_frontier of the default / road class / turn restriction / vehicle restriction / combined / "
+        "edge cut models compiled to coq/Gen/FrontierModels.v on every run; fails closed; coq/Props/GenFrontier.v proves "
+        "Model/Frontier.v equal to them for all inputs, so a misreading shows up in the frontier stream)",
         "serde_json / csv decoding of well-formed files is as the model's decoders say (exercised, not proved)",
         "priority_queue crate: pop returns an entry of minimal priority (ties unspecified, such cases are compared by "
         "the checker only)",
@@ -134,7 +138,16 @@ def run(chk):
     for name, res in vf.run_translators(which=["turn", "cost"]).items():
         if not res.get("ok", False):
             vf.log("translator %s: %s (owned by another check; its previous output is used)" % (name, res.get("msg")))
-    chk.proofs(extra_targets=["Model/FrontierRun.vo", "Model/E2ERun.vo"])
+    # Gen/FrontierModels.v: VehicleRestriction / VehicleParameters, VehicleRestriction::valid and valid_frontier of every concrete
+    # model are regenerated from the Rust source; Props/GenFrontier.v proves Model/Frontier.v equal to them for all inputs
+    fres = vf.run_translators(which=["frontier"]).get("frontier", {"ok": False, "msg": "translator module tr_frontier.py missing"})
+    chk.coverage["translator"]["frontier"] = {k: fres.get(k) for k in ("ok", "msg", "digest", "files", "changed")}
+    if not fres.get("ok"):
+        chk.violation("broken-correspondence", "translator", {"translator": "tr_frontier", "error": fres.get("msg")}, fres.get("msg"),
+                      "app/compass/config/frontier_model/* and the core frontier / unit files have the shape the translator knows "
+                      "(fail closed)", detail="coq/Gen/FrontierModels.v could not be regenerated; the previous definitions (if any) are "
+                      "used below", found=False, key="translator-frontier")
+    chk.proofs(extra_targets=["Model/FrontierRun.vo", "Model/E2ERun.vo"], extra_props=["Props/GenFrontier.v"])
     binp = vf.build_harness("c04")
     thorough = chk.tier != "quick"
     replay_stream = None
